@@ -68,7 +68,11 @@ STD_ENUMS = {
     'std::ops::ControlFlow': [('Continue', 0), ('Break', 1)],
 }
 VARIANT_TESTS = {'std::option::Option::<T>::is_some': frozenset(['Some']), 'std::option::Option::<T>::is_none': frozenset(['None']),
-                 'std::result::Result::<T, E>::is_ok': frozenset(['Ok']), 'std::result::Result::<T, E>::is_err': frozenset(['Err'])}
+                 'std::result::Result::<T, E>::is_ok': frozenset(['Ok']), 'std::result::Result::<T, E>::is_err': frozenset(['Err']),
+                 # Ordering predicates: `c.is_gt()` is `c == Greater` is `matches!(c, Greater)`
+                 'std::cmp::Ordering::is_gt': frozenset(['Greater']), 'std::cmp::Ordering::is_lt': frozenset(['Less']),
+                 'std::cmp::Ordering::is_eq': frozenset(['Equal']), 'std::cmp::Ordering::is_ne': frozenset(['Less', 'Greater']),
+                 'std::cmp::Ordering::is_ge': frozenset(['Greater', 'Equal']), 'std::cmp::Ordering::is_le': frozenset(['Less', 'Equal'])}
 UNIVERSES = [frozenset(n for (n, _) in vs) for vs in STD_ENUMS.values()]
 SOME = frozenset(['Some'])
 OPTION = 'std::option::Option'
@@ -1228,6 +1232,11 @@ class Origin:
 def mk_ite(lit, v1, v2):
     if v1 == v2:
         return v1
+    if lit and lit[0] in ('T', 'F') and isinstance(lit[1], tuple) and lit[1] and lit[1][0] == 'isvar':
+        # `if o.is_some() {..}` tests the same thing as `match o { Some(_) => .. }`
+        st = lit[1][2] if lit[0] == 'T' else complement(lit[1][2])
+        if st:
+            return mk_ite(('in', lit[1][1], st), v1, v2)
     if lit and lit[0] == 'in' and not lit[2]:
         return v2       # an `otherwise` edge that no variant can take
     if lit and lit[0] == 'in' and lit[2] in (frozenset(['None']), frozenset(['Err'])):
@@ -1575,7 +1584,8 @@ def _atoms(t, pos):
                     return lit_atoms(('not', c)) + _atoms(b, False)
                 if is_const(b, True):
                     return lit_atoms(c) + _atoms(a, False)
-            return []
+            # not a conjunction on this side: keep the whole test as ONE opaque atom (case analyses can still evaluate it)
+            return [('T' if pos else 'F', t)]
         if t[0] == 'cmp' and False:
             pass
     return [('T' if pos else 'F', t)]
